@@ -18,6 +18,7 @@ Section FormInd.
   Hypothesis HOr : forall l, Forall P l -> P (FOr l).
   Hypothesis HTrue : P FTrue.
   Hypothesis HFalse : P FFalse.
+  Hypothesis HUnique : forall vs, P (FUnique vs).
 
   Fixpoint form_ind' (f : form) : P f :=
     match f with
@@ -36,6 +37,7 @@ Section FormInd.
                          end) l)
     | FTrue => HTrue
     | FFalse => HFalse
+    | FUnique vs => HUnique vs
     end.
 End FormInd.
 
@@ -161,33 +163,93 @@ Lemma negb_existsb {A} (f : A -> bool) l :
   negb (existsb f l) = forallb (fun x => negb (f x)) l.
 Proof. induction l as [|x l IH]; simpl; [reflexivity|]. rewrite negb_orb, IH. reflexivity. Qed.
 
-Lemma eval_nnfp : forall env f neg,
-  eval env (nnfp neg f) = if neg then negb (eval env f) else eval env f.
+(* the exactly-one groups of a formula *)
+Fixpoint funiques (f : form) : list (list var) :=
+  match f with
+  | FNot g => funiques g
+  | FAnd l => flat_map funiques l
+  | FOr l => flat_map funiques l
+  | FUnique vs => [vs]
+  | _ => []
+  end.
+
+Definition pol (neg : bool) (b : bool) : bool := if neg then negb b else b.
+
+(* if the translation [uq] of the groups of f is exact under env, so is nnf *)
+Lemma eval_nnfp_gen : forall env uq f,
+  (forall vs, In vs (funiques f) -> forall neg,
+     eval env (uq neg vs) = pol neg (exactly_one (map env vs))) ->
+  forall neg, eval env (nnfp_gen uq neg f) = pol neg (eval env f).
 Proof.
-  intros env f. induction f as [v|v s|f IH|l IH|l IH| |] using form_ind'; intros neg; simpl.
+  intros env uq f. unfold pol.
+  induction f as [v|v s|f IH|l IH|l IH| | |vs] using form_ind'; intros Hu neg; simpl.
   - destruct neg; reflexivity.
   - destruct neg, s; simpl; try reflexivity. rewrite negb_involutive. reflexivity.
-  - rewrite IH. destruct neg; simpl; [rewrite negb_involutive|]; reflexivity.
-  - destruct neg.
+  - rewrite IH by exact Hu. destruct neg; simpl; [rewrite negb_involutive|]; reflexivity.
+  - assert (IH' : Forall (fun a => forall neg, eval env (nnfp_gen uq neg a) =
+                                  if neg then negb (eval env a) else eval env a) l).
+    { rewrite Forall_forall in *. intros a Ha. apply (IH a Ha). intros vs Hvs.
+      apply Hu. simpl. apply in_flat_map. exists a. auto. }
+    destruct neg.
     + rewrite eval_or_fold, existsb_map, negb_forallb.
-      apply existsb_ext_Forall. eapply Forall_impl; [|exact IH].
+      apply existsb_ext_Forall. eapply Forall_impl; [|exact IH'].
       intros a Ha. exact (Ha true).
     + rewrite eval_and_fold, forallb_map.
-      apply forallb_ext_Forall. eapply Forall_impl; [|exact IH].
+      apply forallb_ext_Forall. eapply Forall_impl; [|exact IH'].
       intros a Ha. exact (Ha false).
-  - destruct neg.
+  - assert (IH' : Forall (fun a => forall neg, eval env (nnfp_gen uq neg a) =
+                                  if neg then negb (eval env a) else eval env a) l).
+    { rewrite Forall_forall in *. intros a Ha. apply (IH a Ha). intros vs Hvs.
+      apply Hu. simpl. apply in_flat_map. exists a. auto. }
+    destruct neg.
     + rewrite eval_and_fold, forallb_map, negb_existsb.
-      apply forallb_ext_Forall. eapply Forall_impl; [|exact IH].
+      apply forallb_ext_Forall. eapply Forall_impl; [|exact IH'].
       intros a Ha. exact (Ha true).
     + rewrite eval_or_fold, existsb_map.
-      apply existsb_ext_Forall. eapply Forall_impl; [|exact IH].
+      apply existsb_ext_Forall. eapply Forall_impl; [|exact IH'].
       intros a Ha. exact (Ha false).
   - destruct neg; reflexivity.
   - destruct neg; reflexivity.
+  - apply (Hu vs). simpl. auto.
 Qed.
 
-Theorem nnf_eval : forall f env, eval env (nnf f) = eval env f.
-Proof. intros f env. unfold nnf. rewrite eval_nnfp. reflexivity. Qed.
+(* if the translation of the groups is sound (one direction), so is nnf *)
+Lemma nnfp_gen_sound : forall env uq f,
+  (forall vs, In vs (funiques f) -> forall neg,
+     eval env (uq neg vs) = true -> exactly_one (map env vs) = negb neg) ->
+  forall neg, eval env (nnfp_gen uq neg f) = true -> eval env f = negb neg.
+Proof.
+  intros env uq f.
+  induction f as [v|v s|f IH|l IH|l IH| | |vs] using form_ind'; intros Hu neg H; simpl in *.
+  - destruct neg, (env v); simpl in *; congruence.
+  - destruct neg, s, (env v); simpl in *; congruence.
+  - rewrite (IH Hu _ H). destruct neg; reflexivity.
+  - assert (IH' : forall a, In a l -> forall neg, eval env (nnfp_gen uq neg a) = true ->
+                                       eval env a = negb neg).
+    { rewrite Forall_forall in IH. intros a Ha. apply (IH a Ha). intros vs Hvs.
+      apply Hu. apply in_flat_map. exists a. auto. }
+    destruct neg; simpl.
+    + rewrite eval_or_fold, existsb_map in H. apply existsb_exists in H.
+      destruct H as [a [Ha Ea]]. destruct (forallb (eval env) l) eqn:F; [|reflexivity].
+      rewrite forallb_forall in F. specialize (IH' a Ha true Ea).
+      rewrite (F a Ha) in IH'. discriminate.
+    + rewrite eval_and_fold, forallb_map in H. rewrite forallb_forall in *.
+      intros a Ha. apply (IH' a Ha false). apply H. exact Ha.
+  - assert (IH' : forall a, In a l -> forall neg, eval env (nnfp_gen uq neg a) = true ->
+                                       eval env a = negb neg).
+    { rewrite Forall_forall in IH. intros a Ha. apply (IH a Ha). intros vs Hvs.
+      apply Hu. apply in_flat_map. exists a. auto. }
+    destruct neg; simpl.
+    + rewrite eval_and_fold, forallb_map in H. rewrite forallb_forall in H.
+      destruct (existsb (eval env) l) eqn:F; [|reflexivity]. apply existsb_exists in F.
+      destruct F as [a [Ha Ea]]. rewrite (IH' a Ha true (H a Ha)) in Ea. discriminate.
+    + rewrite eval_or_fold, existsb_map in H. apply existsb_exists in H.
+      destruct H as [a [Ha Ea]]. apply existsb_exists. exists a. split; [exact Ha|].
+      apply (IH' a Ha false Ea).
+  - destruct neg; [discriminate|reflexivity].
+  - destruct neg; [reflexivity|discriminate].
+  - apply (Hu vs); auto.
+Qed.
 
 (* ------------------------------------------------------------------ *)
 (* Shape of the NNF.                                                    *)
@@ -263,9 +325,11 @@ Proof.
   - cbn [is_nnf nnf_sub]. rewrite HS. reflexivity.
 Qed.
 
-Lemma nnfp_shape : forall f neg, is_nnf (nnfp neg f) = true.
+Lemma nnfp_gen_shape : forall uq, (forall neg vs, is_nnf (uq neg vs) = true) ->
+  forall f neg, is_nnf (nnfp_gen uq neg f) = true.
 Proof.
-  induction f as [v|v s|f IH|l IH|l IH| |] using form_ind'; intros neg; simpl.
+  intros uq Hu.
+  induction f as [v|v s|f IH|l IH|l IH| | |vs] using form_ind'; intros neg; simpl.
   - reflexivity.
   - reflexivity.
   - apply IH.
@@ -277,7 +341,14 @@ Proof.
       destruct Hg as [x [<- Hx]]; rewrite Forall_forall in IH; apply IH; exact Hx.
   - destruct neg; reflexivity.
   - destruct neg; reflexivity.
+  - apply Hu.
 Qed.
+
+Lemma nnfp0_shape : forall f neg, is_nnf (nnfp0 neg f) = true.
+Proof. apply nnfp_gen_shape. reflexivity. Qed.
+
+Lemma nnfp_shape : forall f neg, is_nnf (nnfp neg f) = true.
+Proof. apply nnfp_gen_shape. intros neg vs. unfold uq_go. destruct neg; apply nnfp0_shape. Qed.
 
 Theorem nnf_shape : forall f, is_nnf (nnf f) = true.
 Proof. intros f. apply nnfp_shape. Qed.
@@ -285,7 +356,7 @@ Proof. intros f. apply nnfp_shape. Qed.
 (* cnfRec does not panic on an NNF *)
 Lemma nnf_sub_cnf_ok : forall f k, nnf_sub k f = true -> cnf_ok f = true.
 Proof.
-  induction f as [v|v s|f IH|l IH|l IH| |] using form_ind'; intros k H; simpl in *;
+  induction f as [v|v s|f IH|l IH|l IH| | |vs] using form_ind'; intros k H; simpl in *;
     try discriminate; try reflexivity.
   - apply andb_true_iff in H. destruct H as [_ H].
     rewrite forallb_forall in *. rewrite Forall_forall in IH.
@@ -325,20 +396,21 @@ Qed.
 Lemma map_id_Forall {A} (f : A -> A) l : Forall (fun x => f x = x) l -> map f l = l.
 Proof. induction 1 as [|x l H _ IH]; simpl; [reflexivity|]. rewrite H, IH. reflexivity. Qed.
 
-Lemma nnf_sub_fix : forall f k, nnf_sub k f = true -> nnfp false f = f.
+Lemma nnf_sub_fix : forall uq f k, nnf_sub k f = true -> nnfp_gen uq false f = f.
 Proof.
-  induction f as [v|v s|f IH|l IH|l IH| |] using form_ind'; intros k H; simpl in *;
+  intros uq.
+  induction f as [v|v s|f IH|l IH|l IH| | |vs] using form_ind'; intros k H; simpl in *;
     try discriminate; try reflexivity.
   - apply andb_true_iff in H. destruct H as [H Hl].
     apply andb_true_iff in H. destruct H as [_ Hn].
-    assert (E : map (nnfp false) l = l).
+    assert (E : map (nnfp_gen uq false) l = l).
     { apply map_id_Forall. rewrite Forall_forall in *. rewrite forallb_forall in Hl.
       intros x Hx. apply (IH x Hx KAnd). apply Hl. exact Hx. }
     rewrite E. unfold and_fold. rewrite (and_collect_id _ Hl).
     destruct l as [|x [|y r]]; simpl in Hn; try discriminate. reflexivity.
   - apply andb_true_iff in H. destruct H as [H Hl].
     apply andb_true_iff in H. destruct H as [_ Hn].
-    assert (E : map (nnfp false) l = l).
+    assert (E : map (nnfp_gen uq false) l = l).
     { apply map_id_Forall. rewrite Forall_forall in *. rewrite forallb_forall in Hl.
       intros x Hx. apply (IH x Hx KOr). apply Hl. exact Hx. }
     rewrite E. unfold or_fold. rewrite (or_collect_id _ Hl).
@@ -347,9 +419,9 @@ Qed.
 
 Lemma is_nnf_fix : forall f, is_nnf f = true -> nnf f = f.
 Proof.
-  intros f H. unfold nnf. destruct f; simpl in H; try discriminate; try reflexivity.
-  - apply (nnf_sub_fix _ KTop). exact H.
-  - apply (nnf_sub_fix _ KTop). exact H.
+  intros f H. unfold nnf, nnfp. destruct f; simpl in H; try discriminate; try reflexivity.
+  - apply (nnf_sub_fix _ _ KTop). exact H.
+  - apply (nnf_sub_fix _ _ KTop). exact H.
 Qed.
 
 Theorem nnf_idem : forall f neg, nnf (nnfp neg f) = nnfp neg f.
@@ -692,7 +764,7 @@ Proof.
     assert (Fl : fv_ok (FOr l)).
     { apply fv_ok_or_of. intros y Hy. apply (fv_ok_or_in _ _ Hfv). right. exact Hy. }
     assert (Fs : fv_ok sub) by (apply (fv_ok_or_in _ _ Hfv); left; reflexivity).
-    destruct sub as [v|v s|g|l2|l2| |]; try (exact (IH Hl _ _ _ _ Fl W H)).
+    destruct sub as [v|v s|g|l2|l2| | |us]; try (exact (IH Hl _ _ _ _ Fl W H)).
     + (* lit *)
       rewrite or_thread_lit in H. destruct (lit_value vs v s) as [x vs1] eqn:E1.
       destruct (or_thread cnf_rec l vs1) as [[res2 lits2] vs2] eqn:E2. injection H as <- <- <-.
@@ -720,7 +792,7 @@ Qed.
 
 Lemma cnf_rec_struct : forall g, struct_ok g.
 Proof.
-  induction g as [v|v s|f IH|l IH|l IH| |] using form_ind'.
+  induction g as [v|v s|f IH|l IH|l IH| | |us] using form_ind'.
   - intros vs cls vs' _ W H. simpl in H. injection H as <- <-.
     split; [exact W|split; [apply ext_refl|intros c l []]].
   - intros vs cls vs' Hfv W H. simpl in H. destruct (lit_value vs v s) as [x vs1] eqn:E1.
@@ -741,6 +813,8 @@ Proof.
     split; [exact W|split; [apply ext_refl|intros c l []]].
   - intros vs cls vs' _ W H. simpl in H. injection H as <- <-.
     split; [exact W|split; [apply ext_refl|]]. intros c l [<-|[]] [].
+  - intros vs cls vs' _ W H. simpl in H. injection H as <- <-.
+    split; [exact W|split; [apply ext_refl|intros c l []]].
 Qed.
 
 Lemma or_struct : forall l vs res lits vs', fv_ok (FOr l) -> wf_vars vs ->
@@ -833,7 +907,7 @@ Proof.
     assert (Fs : fv_ok sub) by (apply (fv_ok_or_in _ _ Hfv); left; reflexivity).
     cbn [cnf_ok forallb] in Hok. apply andb_true_iff in Hok. destruct Hok as [Os Ol].
     change (cnf_ok (FOr l) = true) in Ol.
-    destruct sub as [v|v s|g|l2|l2| |]; try discriminate.
+    destruct sub as [v|v s|g|l2|l2| | |us]; try discriminate.
     + rewrite or_thread_lit in H. destruct (lit_value vs v s) as [x vs1] eqn:E1.
       destruct (or_thread cnf_rec l vs1) as [[res2 lits2] vs2] eqn:E2. injection H as <- <- <-.
       assert (Hv : tseitin_name v = false) by (apply Fs; simpl; auto).
@@ -864,7 +938,7 @@ Qed.
 
 Lemma cnf_rec_sound : forall g, sound_ok g.
 Proof.
-  induction g as [v|v s|f IH|l IH|l IH| |] using form_ind'.
+  induction g as [v|v s|f IH|l IH|l IH| | |us] using form_ind'.
   - intros vs cls vs' T m dflt _ Hok. discriminate.
   - intros vs cls vs' T m dflt Hfv _ W H HT Hs. simpl in H.
     destruct (lit_value vs v s) as [x vs1] eqn:E1. injection H as <- <-.
@@ -881,6 +955,7 @@ Proof.
   - intros vs cls vs' T m dflt _ _ _ _ _ _. reflexivity.
   - intros vs cls vs' T m dflt _ _ W H HT Hs. simpl in H. injection H as <- <-.
     simpl in Hs. discriminate.
+  - intros vs cls vs' T m dflt _ Hok. discriminate.
 Qed.
 
 (* ------------------------------------------------------------------ *)
@@ -1005,7 +1080,7 @@ Proof.
     assert (Fs : fv_ok sub) by (apply (fv_ok_or_in _ _ Hfv); left; reflexivity).
     cbn [cnf_ok forallb] in Hok. apply andb_true_iff in Hok. destruct Hok as [Os Ol].
     change (cnf_ok (FOr l) = true) in Ol.
-    destruct sub as [v|v s|g|l2|l2| |]; try discriminate.
+    destruct sub as [v|v s|g|l2|l2| | |us]; try discriminate.
     + rewrite or_thread_lit in H. destruct (lit_value vs v s) as [x vs1] eqn:E1.
       destruct (or_thread cnf_rec l vs1) as [[res2 lits2] vs2] eqn:E2. injection H as <- <- <-.
       assert (Hv : tseitin_name v = false) by (apply Fs; simpl; auto).
@@ -1053,7 +1128,7 @@ Qed.
 
 Lemma cnf_rec_complete : forall g, complete_ok g.
 Proof.
-  induction g as [v|v s|f IH|l IH|l IH| |] using form_ind'.
+  induction g as [v|v s|f IH|l IH|l IH| | |us] using form_ind'.
   - intros vs cls vs' env m _ Hok. discriminate.
   - intros vs cls vs' env m Hfv _ W H L C. simpl in H.
     destruct (lit_value vs v s) as [x vs1] eqn:E1. injection H as <- <-.
@@ -1072,127 +1147,9 @@ Proof.
     exists []. rewrite List.app_nil_r. split; [exact L|split; [exact C|reflexivity]].
   - intros vs cls vs' env m _ _ W H L C. simpl in H. injection H as <- <-.
     exists []. rewrite List.app_nil_r. split; [exact L|split; [exact C|intros Hev; discriminate]].
+  - intros vs cls vs' env m _ Hok. discriminate.
 Qed.
 
-(* ------------------------------------------------------------------ *)
-(* nnf does not invent variables.                                       *)
-
-Lemma and_collect_fvars : forall l res v,
-  and_collect l = Some res -> In v (flat_map fvars res) -> In v (flat_map fvars l).
-Proof.
-  induction l as [|x l IH]; intros res v H Hv; cbn [and_collect] in H.
-  - injection H as <-. exact Hv.
-  - destruct x;
-      try (destruct (and_collect l) as [r|]; cbn [option_map] in H; [|discriminate];
-           injection H as <-; cbn [flat_map] in Hv |- *; apply in_app_or in Hv; apply in_or_app;
-           destruct Hv as [Hv|Hv]; [left; exact Hv|right; apply (IH r); auto]).
-    + destruct (and_collect l) as [r|]; cbn [option_map] in H; [|discriminate].
-      injection H as <-. rewrite flat_map_app in Hv. apply in_app_or in Hv.
-      cbn [flat_map]. apply in_or_app.
-      destruct Hv as [Hv|Hv]; [left; exact Hv|right; apply (IH r); auto].
-    + cbn [flat_map]. apply in_or_app. right. apply (IH res); auto.
-    + discriminate.
-Qed.
-
-Lemma or_collect_fvars : forall l res v,
-  or_collect l = Some res -> In v (flat_map fvars res) -> In v (flat_map fvars l).
-Proof.
-  induction l as [|x l IH]; intros res v H Hv; cbn [or_collect] in H.
-  - injection H as <-. exact Hv.
-  - destruct x;
-      try (destruct (or_collect l) as [r|]; cbn [option_map] in H; [|discriminate];
-           injection H as <-; cbn [flat_map] in Hv |- *; apply in_app_or in Hv; apply in_or_app;
-           destruct Hv as [Hv|Hv]; [left; exact Hv|right; apply (IH r); auto]).
-    + destruct (or_collect l) as [r|]; cbn [option_map] in H; [|discriminate].
-      injection H as <-. rewrite flat_map_app in Hv. apply in_app_or in Hv.
-      cbn [flat_map]. apply in_or_app.
-      destruct Hv as [Hv|Hv]; [left; exact Hv|right; apply (IH r); auto].
-    + discriminate.
-    + cbn [flat_map]. apply in_or_app. right. apply (IH res); auto.
-Qed.
-
-Lemma and_fold_fvars : forall l v, In v (fvars (and_fold l)) -> In v (flat_map fvars l).
-Proof.
-  intros l v H. unfold and_fold in H. destruct (and_collect l) as [res|] eqn:E; [|destruct H].
-  apply (and_collect_fvars _ _ _ E).
-  destruct res as [|x [|y r]]; [destruct H| |exact H].
-  simpl. rewrite List.app_nil_r. exact H.
-Qed.
-
-Lemma or_fold_fvars : forall l v, In v (fvars (or_fold l)) -> In v (flat_map fvars l).
-Proof.
-  intros l v H. unfold or_fold in H. destruct (or_collect l) as [res|] eqn:E; [|destruct H].
-  apply (or_collect_fvars _ _ _ E).
-  destruct res as [|x [|y r]]; [destruct H| |exact H].
-  simpl. rewrite List.app_nil_r. exact H.
-Qed.
-
-Lemma flat_map_map_in {A} (g : A -> A) (h : A -> list var) (l : list A) v :
-  Forall (fun x => In v (h (g x)) -> In v (h x)) l ->
-  In v (flat_map h (map g l)) -> In v (flat_map h l).
-Proof.
-  intros HF H. apply in_flat_map in H. destruct H as [y [Hy Hv]].
-  apply in_map_iff in Hy. destruct Hy as [x [<- Hx]].
-  apply in_flat_map. exists x. split; [exact Hx|].
-  rewrite Forall_forall in HF. apply HF; assumption.
-Qed.
-
-Lemma nnfp_fvars : forall f neg v, In v (fvars (nnfp neg f)) -> In v (fvars f).
-Proof.
-  induction f as [w|w s|f IH|l IH|l IH| |] using form_ind'; intros neg v H; simpl in *.
-  - exact H.
-  - exact H.
-  - apply (IH _ _ H).
-  - destruct neg; [apply or_fold_fvars in H|apply and_fold_fvars in H];
-      (eapply flat_map_map_in; [|exact H]); eapply Forall_impl; [|exact IH| |exact IH];
-      intros a Ha; apply Ha.
-  - destruct neg; [apply and_fold_fvars in H|apply or_fold_fvars in H];
-      (eapply flat_map_map_in; [|exact H]); eapply Forall_impl; [|exact IH| |exact IH];
-      intros a Ha; apply Ha.
-  - destruct neg; destruct H.
-  - destruct neg; destruct H.
-Qed.
-
-Lemma fv_ok_nnf : forall f, fv_ok f -> fv_ok (nnf f).
-Proof. intros f H v Hv. apply H. apply (nnfp_fvars _ _ _ Hv). Qed.
-
-(* ------------------------------------------------------------------ *)
-(* asCnf: the two directions for an arbitrary formula of the AST.       *)
-
-Lemma as_cnf_eq : forall f, cnf_rec (nnf f) (Vars [] []) = (c_clauses (as_cnf f), c_vars (as_cnf f)).
-Proof. intros f. unfold as_cnf. destruct (cnf_rec (nnf f) (Vars [] [])). reflexivity. Qed.
-
-Lemma as_cnf_struct : forall f, fv_ok f ->
-  wf_vars (c_vars (as_cnf f)) /\
-  in_range (c_clauses (as_cnf f)) (nvars (c_vars (as_cnf f))).
-Proof.
-  intros f H.
-  destruct (cnf_rec_struct (nnf f) _ _ _ (fv_ok_nnf _ H) wf_empty (as_cnf_eq f)) as [W [_ R]].
-  auto.
-Qed.
-
-Theorem cnf_sound_form : forall f, fv_ok f -> forall m dflt,
-  sat_cnf m (c_clauses (as_cnf f)) = true -> eval (env_of (as_cnf f) m dflt) f = true.
-Proof.
-  intros f H m dflt S. rewrite <- nnf_eval. unfold env_of.
-  apply (cnf_rec_sound (nnf f) _ _ _ _ m dflt (fv_ok_nnf _ H) (nnf_cnf_ok f) wf_empty (as_cnf_eq f)).
-  - intros v i G. exact G.
-  - exact S.
-Qed.
-
-Theorem cnf_complete_form : forall f, fv_ok f -> forall env, eval env f = true ->
-  exists m, List.length m = List.length (v_all (c_vars (as_cnf f))) /\
-            sat_cnf m (c_clauses (as_cnf f)) = true /\
-            consistent env (v_all (c_vars (as_cnf f))) m.
-Proof.
-  intros f H env Hev.
-  destruct (cnf_rec_complete (nnf f) _ _ _ env [] (fv_ok_nnf _ H) (nnf_cnf_ok f) wf_empty
-              (as_cnf_eq f) eq_refl) as [e [L [C S]]].
-  - intros v i G. discriminate.
-  - exists e. simpl in *. split; [|split; [|exact C]].
-    + unfold mlen, nvars, tbl_len in L. lia.
-    + apply S. rewrite nnf_eval. exact Hev.
-Qed.
 (* ------------------------------------------------------------------ *)
 (* Unique: integer square root, size of the grid.                       *)
 
@@ -1419,9 +1376,6 @@ Proof.
   destruct (count_true (map env vars)) as [|[|k]]; reflexivity.
 Qed.
 
-Definition consistentb (env : var -> bool) (defs : list (var * list var)) : bool :=
-  forallb (fun e : var * list var => Bool.eqb (env (fst e)) (existsb env (snd e))) defs.
-
 Lemma eval_f_eq : forall env a b, eval env (f_eq a b) = Bool.eqb (eval env a) (eval env b).
 Proof. intros. simpl. destruct (eval env a), (eval env b); reflexivity. Qed.
 
@@ -1562,108 +1516,12 @@ Proof. intros. simpl. destruct (eval env a), (eval env b); reflexivity. Qed.
 Lemma eval_f_xor : forall env a b, eval env (f_xor a b) = xorb (eval env a) (eval env b).
 Proof. intros. simpl. destruct (eval env a), (eval env b); reflexivity. Qed.
 
-Lemma eval_f_unique : forall env names,
-  eval env (f_unique names) =
-  consistentb env (unique_defs (List.length names) (map pb_var names))
-  && exactly_one (map (nm env) names).
-Proof.
-  intros env names. unfold f_unique. rewrite eval_unique_rec by (rewrite map_length; lia).
-  rewrite map_map. reflexivity.
-Qed.
-
 Lemma consistentb_flat_map {A} : forall env (h : A -> list (var * list var)) l,
   consistentb env (flat_map h l) = forallb (fun x => consistentb env (h x)) l.
 Proof.
   intros env h. induction l as [|x l IH]; simpl; [reflexivity|].
   rewrite consistentb_app, IH. reflexivity.
 Qed.
-
-(* with dummies equal to the disjunction of their members, the translated
-   formula has the value of the source formula *)
-Lemma desugar_consistent : forall env s,
-  consistentb env (sdefs s) = true -> eval env (desugar s) = seval (nm env) s.
-Proof.
-  intros env. induction s as [n| | |g IH|l IH|l IH|a b IHa IHb|a b IHa IHb|a b IHa IHb|names]
-    using sform_ind'; intros C; cbn [sdefs] in C; cbn [desugar seval].
-  - reflexivity.
-  - reflexivity.
-  - reflexivity.
-  - cbn [eval]. rewrite IH by exact C. reflexivity.
-  - cbn [eval]. rewrite forallb_map. apply forallb_ext_Forall.
-    rewrite consistentb_flat_map in C. rewrite forallb_forall in C.
-    rewrite Forall_forall in *. intros x Hx. apply IH; auto.
-  - cbn [eval]. rewrite existsb_map. apply existsb_ext_Forall.
-    rewrite consistentb_flat_map in C. rewrite forallb_forall in C.
-    rewrite Forall_forall in *. intros x Hx. apply IH; auto.
-  - rewrite consistentb_app in C. apply andb_true_iff in C. destruct C as [Ca Cb].
-    rewrite eval_f_implies, IHa, IHb by assumption. reflexivity.
-  - rewrite consistentb_app in C. apply andb_true_iff in C. destruct C as [Ca Cb].
-    rewrite eval_f_eq, IHa, IHb by assumption. reflexivity.
-  - rewrite consistentb_app in C. apply andb_true_iff in C. destruct C as [Ca Cb].
-    rewrite eval_f_xor, IHa, IHb by assumption. reflexivity.
-  - rewrite eval_f_unique, C. reflexivity.
-Qed.
-
-(* polarity: a positive occurrence that is true is true in the source, a
-   negative one that is false is false in the source *)
-Lemma desugar_polar : forall env s,
-  (pos_unique true s = true -> eval env (desugar s) = true -> seval (nm env) s = true) /\
-  (pos_unique false s = true -> eval env (desugar s) = false -> seval (nm env) s = false).
-Proof.
-  intros env. induction s as [n| | |g IH|l IH|l IH|a b IHa IHb|a b IHa IHb|a b IHa IHb|names]
-    using sform_ind'; cbn [pos_unique desugar seval].
-  - split; intros _ H; exact H.
-  - split; intros _ H; exact H.
-  - split; intros _ H; exact H.
-  - destruct IH as [IHp IHn]. cbn [eval negb]. split; intros Hp H.
-    + rewrite IHn; auto. destruct (eval env (desugar g)); [discriminate|reflexivity].
-    + rewrite IHp; auto. destruct (eval env (desugar g)); [reflexivity|discriminate].
-  - cbn [eval]. rewrite forallb_map. split; intros Hp H.
-    + rewrite forallb_forall in *. rewrite Forall_forall in IH.
-      intros x Hx. apply (IH x Hx); auto.
-    + apply forallb_false_exists in H. destruct H as [x [Hx Ex]].
-      rewrite Forall_forall in IH. rewrite forallb_forall in Hp.
-      apply (forallb_false_intro _ _ x Hx). apply (IH x Hx); auto.
-  - cbn [eval]. rewrite existsb_map. split; intros Hp H.
-    + apply existsb_exists in H. destruct H as [x [Hx Ex]]. apply existsb_exists.
-      exists x. split; [exact Hx|]. rewrite Forall_forall in IH. rewrite forallb_forall in Hp.
-      apply (IH x Hx); auto.
-    + apply not_true_is_false. intros Hs. apply not_true_iff_false in H. apply H.
-      apply existsb_exists in Hs. destruct Hs as [x [Hx Ex]]. apply existsb_exists.
-      exists x. split; [exact Hx|]. rewrite Forall_forall in IH. rewrite forallb_forall in Hp.
-      destruct (eval env (desugar x)) eqn:E; [reflexivity|].
-      rewrite (proj2 (IH x Hx) (Hp x Hx) E) in Ex. discriminate.
-  - destruct IHa as [IHap IHan], IHb as [IHbp IHbn]. rewrite eval_f_implies. cbn [negb].
-    split; intros Hp H; apply andb_true_iff in Hp; destruct Hp as [Hpa Hpb].
-    + destruct (eval env (desugar a)) eqn:Ea.
-      * simpl in H. rewrite (IHbp Hpb H). apply implb_true_r.
-      * rewrite (IHan Hpa eq_refl). reflexivity.
-    + destruct (eval env (desugar a)) eqn:Ea; [|discriminate]. simpl in H.
-      rewrite (IHap Hpa eq_refl), (IHbn Hpb H). reflexivity.
-  - destruct IHa as [IHap IHan], IHb as [IHbp IHbn]. rewrite eval_f_eq.
-    assert (Both : pos_unique true a && pos_unique false a && pos_unique true b && pos_unique false b = true ->
-                   seval (nm env) a = eval env (desugar a) /\ seval (nm env) b = eval env (desugar b)).
-    { intros Hp. apply andb_true_iff in Hp. destruct Hp as [Hp H4].
-      apply andb_true_iff in Hp. destruct Hp as [Hp H3].
-      apply andb_true_iff in Hp. destruct Hp as [H1 H2]. split.
-      - destruct (eval env (desugar a)); auto.
-      - destruct (eval env (desugar b)); auto. }
-    split; intros Hp H; destruct (Both Hp) as [-> ->]; exact H.
-  - destruct IHa as [IHap IHan], IHb as [IHbp IHbn]. rewrite eval_f_xor.
-    assert (Both : pos_unique true a && pos_unique false a && pos_unique true b && pos_unique false b = true ->
-                   seval (nm env) a = eval env (desugar a) /\ seval (nm env) b = eval env (desugar b)).
-    { intros Hp. apply andb_true_iff in Hp. destruct Hp as [Hp H4].
-      apply andb_true_iff in Hp. destruct Hp as [Hp H3].
-      apply andb_true_iff in Hp. destruct Hp as [H1 H2]. split.
-      - destruct (eval env (desugar a)); auto.
-      - destruct (eval env (desugar b)); auto. }
-    split; intros Hp H; destruct (Both Hp) as [-> ->]; exact H.
-  - rewrite eval_f_unique. split; intros Hp H.
-    + apply andb_true_iff in H. apply H.
-    + simpl in Hp. apply Nat.leb_le in Hp.
-      rewrite unique_defs_small in H by (rewrite map_length; exact Hp). exact H.
-Qed.
-
 
 (* ---- the public constructors never produce a "dummy-k" name ---- *)
 
@@ -1764,27 +1622,6 @@ Proof.
         rewrite Forall_forall in H. auto.
       * destruct Hx as [<-|[<-|[]]]; apply IH; apply okv_grid_vars; auto.
 Qed.
-
-Theorem fv_ok_desugar : forall s, fv_ok (desugar s).
-Proof.
-  induction s as [n| | |g IH|l IH|l IH|a b IHa IHb|a b IHa IHb|a b IHa IHb|names]
-    using sform_ind'; cbn [desugar].
-  - apply fv_ok_var. apply okv_pb.
-  - intros v [].
-  - intros v [].
-  - exact IH.
-  - apply fv_ok_and_of. intros x Hx. apply in_map_iff in Hx. destruct Hx as [y [<- Hy]].
-    rewrite Forall_forall in IH. auto.
-  - apply fv_ok_or_of. intros x Hx. apply in_map_iff in Hx. destruct Hx as [y [<- Hy]].
-    rewrite Forall_forall in IH. auto.
-  - apply fv_ok_f_implies; assumption.
-  - apply fv_ok_f_eq; assumption.
-  - apply fv_ok_f_xor; assumption.
-  - unfold f_unique. apply fv_ok_unique_rec. apply Forall_forall. intros v Hv.
-    apply in_map_iff in Hv. destruct Hv as [n [<- _]]. apply okv_pb.
-Qed.
-
-
 
 (* ---- the names of the dummies: lengths ---- *)
 
@@ -1915,11 +1752,10 @@ Proof.
   rewrite Forall_forall in HF. exact (HF x Hx d l0 H).
 Qed.
 
-Lemma sdefs_ranked : forall s, ranked (sdefs s).
+Lemma fdefs_ranked : forall f, ranked (fdefs f).
 Proof.
-  induction s as [n| | |g IH|l IH|l IH|a b IHa IHb|a b IHa IHb|a b IHa IHb|names]
-    using sform_ind'; cbn [sdefs]; try (intros d l []); try assumption;
-    try (apply ranked_flat_map; assumption); try (apply ranked_app; assumption).
+  induction f as [v|v s|f IH|l IH|l IH| | |us] using form_ind'; cbn [fdefs];
+    try (intros d l0 []); try assumption; try (apply ranked_flat_map; assumption).
   apply unique_defs_ranked.
 Qed.
 
@@ -2238,58 +2074,385 @@ Proof.
     subst. reflexivity.
 Qed.
 
-(* every definition of sdefs is generated from some list of variables *)
-Lemma sdefs_gen : forall s e, In e (sdefs s) -> exists ws, gen_from ws e.
+(* every definition of fdefs is generated from some list of variables *)
+Lemma fdefs_gen : forall f e, In e (fdefs f) -> exists ws, gen_from ws e.
 Proof.
-  induction s as [n| | |g IH|l IH|l IH|a b IHa IHb|a b IHa IHb|a b IHa IHb|names]
-    using sform_ind'; cbn [sdefs]; intros e He; try (destruct He; fail).
+  induction f as [v|v s|f IH|l IH|l IH| | |us] using form_ind'; cbn [fdefs]; intros e He;
+    try (destruct He; fail).
   - exact (IH e He).
   - apply in_flat_map in He. destruct He as [x [Hx He]]. rewrite Forall_forall in IH.
     exact (IH x Hx e He).
   - apply in_flat_map in He. destruct He as [x [Hx He]]. rewrite Forall_forall in IH.
     exact (IH x Hx e He).
-  - apply in_app_or in He. destruct He; [apply IHa|apply IHb]; assumption.
-  - apply in_app_or in He. destruct He; [apply IHa|apply IHb]; assumption.
-  - apply in_app_or in He. destruct He; [apply IHa|apply IHb]; assumption.
   - apply unique_defs_gen in He. destruct He as [ws [_ [_ G]]]. exists ws. exact G.
 Qed.
 
 (* Two groups of a formula that share a dummy define it identically: the
    joined name determines the list of variables (names and dummy flags). *)
-Theorem clash_free_all : forall s, clash_free s = true.
+Theorem fdefs_functional : forall f, functional (fdefs f).
 Proof.
-  intros s. unfold clash_free. apply functional_defs_spec. intros d l1 l2 H1 H2.
-  destruct (sdefs_gen s _ H1) as [ws1 G1]. destruct (sdefs_gen s _ H2) as [ws2 G2].
+  intros f d l1 l2 H1 H2.
+  destruct (fdefs_gen f _ H1) as [ws1 G1]. destruct (fdefs_gen f _ H2) as [ws2 G2].
   exact (gen_from_functional ws1 ws2 d l1 l2 G1 G2).
 Qed.
 
-(* a satisfying assignment of the names extends to the dummies *)
-Lemma desugar_complete : forall s env, seval env s = true ->
-  exists env', (forall n, env' (pb_var n) = env n) /\ eval env' (desugar s) = true.
+Theorem clash_free_all : forall s, clash_free s = true.
+Proof. intros s. unfold clash_free. apply functional_defs_spec. apply fdefs_functional. Qed.
+
+(* any assignment can be made consistent on the dummies of the groups of f,
+   without touching the other variables *)
+Lemma fdefs_extend : forall f e0, exists env',
+  (forall v, vdummy v = false -> env' v = e0 v) /\ consistentb env' (fdefs f) = true.
 Proof.
-  intros s env H. set (e0 := fun v : var => env (vname v)).
-  exists (ext_env e0 (sdefs s)).
-  assert (Hn : forall n, ext_env e0 (sdefs s) (pb_var n) = env n).
-  { intros n. rewrite ext_env_named by reflexivity. reflexivity. }
-  split; [exact Hn|].
-  rewrite desugar_consistent.
-  - rewrite <- H. apply seval_ext. intros n. unfold nm. apply Hn.
-  - apply ext_env_consistent; [apply functional_defs_spec; apply clash_free_all|apply sdefs_ranked].
+  intros f e0. exists (ext_env e0 (fdefs f)). split.
+  - intros v Hv. apply ext_env_named. exact Hv.
+  - apply ext_env_consistent; [apply fdefs_functional|apply fdefs_ranked].
+Qed.
+
+(* ------------------------------------------------------------------ *)
+(* nnf does not invent variables.                                       *)
+
+Lemma and_collect_fvars : forall l res v,
+  and_collect l = Some res -> In v (flat_map fvars res) -> In v (flat_map fvars l).
+Proof.
+  induction l as [|x l IH]; intros res v H Hv; cbn [and_collect] in H.
+  - injection H as <-. exact Hv.
+  - destruct x;
+      try (destruct (and_collect l) as [r|]; cbn [option_map] in H; [|discriminate];
+           injection H as <-; cbn [flat_map] in Hv |- *; apply in_app_or in Hv; apply in_or_app;
+           destruct Hv as [Hv|Hv]; [left; exact Hv|right; apply (IH r); auto]).
+    + destruct (and_collect l) as [r|]; cbn [option_map] in H; [|discriminate].
+      injection H as <-. rewrite flat_map_app in Hv. apply in_app_or in Hv.
+      cbn [flat_map]. apply in_or_app.
+      destruct Hv as [Hv|Hv]; [left; exact Hv|right; apply (IH r); auto].
+    + cbn [flat_map]. apply in_or_app. right. apply (IH res); auto.
+    + discriminate.
+Qed.
+
+Lemma or_collect_fvars : forall l res v,
+  or_collect l = Some res -> In v (flat_map fvars res) -> In v (flat_map fvars l).
+Proof.
+  induction l as [|x l IH]; intros res v H Hv; cbn [or_collect] in H.
+  - injection H as <-. exact Hv.
+  - destruct x;
+      try (destruct (or_collect l) as [r|]; cbn [option_map] in H; [|discriminate];
+           injection H as <-; cbn [flat_map] in Hv |- *; apply in_app_or in Hv; apply in_or_app;
+           destruct Hv as [Hv|Hv]; [left; exact Hv|right; apply (IH r); auto]).
+    + destruct (or_collect l) as [r|]; cbn [option_map] in H; [|discriminate].
+      injection H as <-. rewrite flat_map_app in Hv. apply in_app_or in Hv.
+      cbn [flat_map]. apply in_or_app.
+      destruct Hv as [Hv|Hv]; [left; exact Hv|right; apply (IH r); auto].
+    + discriminate.
+    + cbn [flat_map]. apply in_or_app. right. apply (IH res); auto.
+Qed.
+
+Lemma and_fold_fvars : forall l v, In v (fvars (and_fold l)) -> In v (flat_map fvars l).
+Proof.
+  intros l v H. unfold and_fold in H. destruct (and_collect l) as [res|] eqn:E; [|destruct H].
+  apply (and_collect_fvars _ _ _ E).
+  destruct res as [|x [|y r]]; [destruct H| |exact H].
+  simpl. rewrite List.app_nil_r. exact H.
+Qed.
+
+Lemma or_fold_fvars : forall l v, In v (fvars (or_fold l)) -> In v (flat_map fvars l).
+Proof.
+  intros l v H. unfold or_fold in H. destruct (or_collect l) as [res|] eqn:E; [|destruct H].
+  apply (or_collect_fvars _ _ _ E).
+  destruct res as [|x [|y r]]; [destruct H| |exact H].
+  simpl. rewrite List.app_nil_r. exact H.
+Qed.
+
+Lemma flat_map_map_in {A} (g : A -> A) (h : A -> list var) (l : list A) v :
+  Forall (fun x => In v (h (g x)) -> In v (h x)) l ->
+  In v (flat_map h (map g l)) -> In v (flat_map h l).
+Proof.
+  intros HF H. apply in_flat_map in H. destruct H as [y [Hy Hv]].
+  apply in_map_iff in Hy. destruct Hy as [x [<- Hx]].
+  apply in_flat_map. exists x. split; [exact Hx|].
+  rewrite Forall_forall in HF. apply HF; assumption.
+Qed.
+
+Lemma nnfp_gen_fvars : forall uq f neg v, In v (fvars (nnfp_gen uq neg f)) ->
+  In v (fvars f) \/ exists vs neg', In vs (funiques f) /\ In v (fvars (uq neg' vs)).
+Proof.
+  intros uq.
+  induction f as [w|w s|f IH|l IH|l IH| | |us] using form_ind'; intros neg v H; simpl in *.
+  - left. exact H.
+  - left. exact H.
+  - apply (IH _ _ H).
+  - assert (Hin : In v (flat_map fvars (map (nnfp_gen uq neg) l))).
+    { destruct neg; [apply or_fold_fvars in H|apply and_fold_fvars in H]; exact H. }
+    apply in_flat_map in Hin. destruct Hin as [y [Hy Hv]]. apply in_map_iff in Hy.
+    destruct Hy as [x [<- Hx]]. rewrite Forall_forall in IH.
+    destruct (IH x Hx _ _ Hv) as [Hl|[vs [neg' [Hvs Hu]]]].
+    + left. apply in_flat_map. exists x. auto.
+    + right. exists vs, neg'. split; [apply in_flat_map; exists x; auto|exact Hu].
+  - assert (Hin : In v (flat_map fvars (map (nnfp_gen uq neg) l))).
+    { destruct neg; [apply and_fold_fvars in H|apply or_fold_fvars in H]; exact H. }
+    apply in_flat_map in Hin. destruct Hin as [y [Hy Hv]]. apply in_map_iff in Hy.
+    destruct Hy as [x [<- Hx]]. rewrite Forall_forall in IH.
+    destruct (IH x Hx _ _ Hv) as [Hl|[vs [neg' [Hvs Hu]]]].
+    + left. apply in_flat_map. exists x. auto.
+    + right. exists vs, neg'. split; [apply in_flat_map; exists x; auto|exact Hu].
+  - destruct neg; destruct H.
+  - destruct neg; destruct H.
+  - right. exists us, neg. auto.
+Qed.
+
+Lemma funiques_fvars : forall f vs w, In vs (funiques f) -> In w vs -> In w (fvars f).
+Proof.
+  induction f as [v|v s|f IH|l IH|l IH| | |us] using form_ind'; intros vs w H Hw; simpl in *;
+    try (destruct H; fail).
+  - eapply IH; eauto.
+  - apply in_flat_map in H. destruct H as [x [Hx H]]. rewrite Forall_forall in IH.
+    apply in_flat_map. exists x. split; [exact Hx|]. eapply IH; eauto.
+  - apply in_flat_map in H. destruct H as [x [Hx H]]. rewrite Forall_forall in IH.
+    apply in_flat_map. exists x. split; [exact Hx|]. eapply IH; eauto.
+  - destruct H as [<-|[]]. exact Hw.
+Qed.
+
+(* ---- nnf with exactly-one groups ---- *)
+
+Lemma no_unique_funiques : forall f, no_unique f = true -> funiques f = [].
+Proof.
+  induction f as [v|v s|f IH|l IH|l IH| | |us] using form_ind'; intros H; simpl in *;
+    try reflexivity; try discriminate.
+  - apply IH. exact H.
+  - rewrite forallb_forall in H. rewrite Forall_forall in IH.
+    induction l as [|x l IHl]; [reflexivity|]. simpl.
+    rewrite (IH x (or_introl eq_refl) (H x (or_introl eq_refl))). simpl. apply IHl.
+    + intros y Hy. apply IH. right. exact Hy.
+    + intros y Hy. apply H. right. exact Hy.
+  - rewrite forallb_forall in H. rewrite Forall_forall in IH.
+    induction l as [|x l IHl]; [reflexivity|]. simpl.
+    rewrite (IH x (or_introl eq_refl) (H x (or_introl eq_refl))). simpl. apply IHl.
+    + intros y Hy. apply IH. right. exact Hy.
+    + intros y Hy. apply H. right. exact Hy.
+Qed.
+
+Lemma no_unique_pairs_neg : forall l, forallb no_unique (pairs_neg l) = true.
+Proof.
+  induction l as [|v l IH]; [reflexivity|]. cbn [pairs_neg]. rewrite forallb_app, IH, andb_true_r.
+  apply forallb_forall. intros x Hx. apply in_map_iff in Hx. destruct Hx as [w [<- _]]. reflexivity.
+Qed.
+
+Lemma no_unique_or_vars : forall l, no_unique (FOr (map FVar l)) = true.
+Proof.
+  intros l. simpl. apply forallb_forall. intros x Hx. apply in_map_iff in Hx.
+  destruct Hx as [w [<- _]]. reflexivity.
+Qed.
+
+Lemma no_unique_small : forall vs, no_unique (unique_small vs) = true.
+Proof.
+  intros vs. unfold unique_small. cbn [no_unique forallb].
+  rewrite no_unique_pairs_neg, andb_true_r. apply (no_unique_or_vars vs).
+Qed.
+
+Lemma no_unique_grid_defs : forall ds ms, forallb no_unique (grid_defs ds ms) = true.
+Proof.
+  induction ds as [|d ds IH]; intros ms; [reflexivity|]. destruct ms as [|l ms]; [reflexivity|].
+  cbn [grid_defs forallb]. rewrite IH, andb_true_r. unfold f_eq.
+  pose proof (no_unique_or_vars l) as H. cbn [no_unique forallb] in *. rewrite H. reflexivity.
+Qed.
+
+Lemma no_unique_rec : forall fuel vs, no_unique (unique_rec fuel vs) = true.
+Proof.
+  induction fuel as [|k IH]; intros vs; cbn [unique_rec];
+    destruct (List.length vs <=? 4); try apply no_unique_small; [reflexivity|].
+  cbn [no_unique]. rewrite !forallb_app, !no_unique_grid_defs. cbn [forallb].
+  rewrite !IH. reflexivity.
+Qed.
+
+Lemma eval_nnfp0 : forall env g neg, no_unique g = true ->
+  eval env (nnfp0 neg g) = pol neg (eval env g).
+Proof.
+  intros env g neg H. unfold nnfp0. apply eval_nnfp_gen.
+  rewrite (no_unique_funiques g H). intros vs [].
+Qed.
+
+Lemma eval_uq_go : forall env neg vs,
+  eval env (uq_go neg vs) =
+  if neg then negb (exactly_one (map env vs))
+  else consistentb env (unique_defs (List.length vs) vs) && exactly_one (map env vs).
+Proof.
+  intros env neg vs. unfold uq_go. destruct neg.
+  - rewrite eval_nnfp0 by apply no_unique_small. unfold pol. rewrite eval_unique_small. reflexivity.
+  - rewrite eval_nnfp0 by apply no_unique_rec. unfold pol. apply eval_unique_rec. lia.
+Qed.
+
+(* a model of nnf f is a model of f, whatever the values of the dummies *)
+Theorem nnfp_sound : forall f env neg, eval env (nnfp neg f) = true -> eval env f = negb neg.
+Proof.
+  intros f env. apply nnfp_gen_sound. intros vs _ neg H. rewrite eval_uq_go in H.
+  destruct neg; simpl.
+  - apply negb_true_iff in H. exact H.
+  - apply andb_true_iff in H. apply H.
+Qed.
+
+Theorem nnf_sound : forall f env, eval env (nnf f) = true -> eval env f = true.
+Proof. intros f env H. apply (nnfp_sound f env false H). Qed.
+
+Lemma consistentb_incl : forall env a b, (forall e, In e a -> In e b) ->
+  consistentb env b = true -> consistentb env a = true.
+Proof.
+  intros env a b Hi H. unfold consistentb in *. rewrite forallb_forall in *. auto.
+Qed.
+
+Lemma funiques_fdefs : forall f vs, In vs (funiques f) ->
+  forall e, In e (unique_defs (List.length vs) vs) -> In e (fdefs f).
+Proof.
+  induction f as [v|v s|f IH|l IH|l IH| | |us] using form_ind'; intros vs H e He; simpl in *;
+    try (destruct H; fail).
+  - eapply IH; eauto.
+  - apply in_flat_map in H. destruct H as [x [Hx H]]. rewrite Forall_forall in IH.
+    apply in_flat_map. exists x. split; [exact Hx|]. eapply IH; eauto.
+  - apply in_flat_map in H. destruct H as [x [Hx H]]. rewrite Forall_forall in IH.
+    apply in_flat_map. exists x. split; [exact Hx|]. eapply IH; eauto.
+  - destruct H as [<-|[]]. exact He.
+Qed.
+
+(* when the dummies of the groups of f have the value of the disjunction of
+   their members, nnf f has the value of f *)
+Theorem nnfp_eval : forall f env, consistentb env (fdefs f) = true ->
+  forall neg, eval env (nnfp neg f) = pol neg (eval env f).
+Proof.
+  intros f env C. apply eval_nnfp_gen. intros vs Hvs neg. rewrite eval_uq_go.
+  destruct neg; [reflexivity|].
+  rewrite (consistentb_incl env _ _ (funiques_fdefs f vs Hvs) C). reflexivity.
+Qed.
+
+Theorem nnf_eval : forall f env, consistentb env (fdefs f) = true -> eval env (nnf f) = eval env f.
+Proof. intros f env C. apply (nnfp_eval f env C false). Qed.
+
+Lemma no_unique_fdefs : forall f, no_unique f = true -> fdefs f = [].
+Proof.
+  induction f as [v|v s|f IH|l IH|l IH| | |us] using form_ind'; intros H; simpl in *;
+    try reflexivity; try discriminate.
+  - apply IH. exact H.
+  - rewrite forallb_forall in H. rewrite Forall_forall in IH.
+    induction l as [|x l IHl]; [reflexivity|]. simpl.
+    rewrite (IH x (or_introl eq_refl) (H x (or_introl eq_refl))). simpl. apply IHl.
+    + intros y Hy. apply IH. right. exact Hy.
+    + intros y Hy. apply H. right. exact Hy.
+  - rewrite forallb_forall in H. rewrite Forall_forall in IH.
+    induction l as [|x l IHl]; [reflexivity|]. simpl.
+    rewrite (IH x (or_introl eq_refl) (H x (or_introl eq_refl))). simpl. apply IHl.
+    + intros y Hy. apply IH. right. exact Hy.
+    + intros y Hy. apply H. right. exact Hy.
+Qed.
+
+(* without exactly-one group: for every assignment *)
+Theorem nnf_eval_core : forall f env, no_unique f = true -> eval env (nnf f) = eval env f.
+Proof. intros f env H. apply nnf_eval. rewrite (no_unique_fdefs f H). reflexivity. Qed.
+
+Lemma fv_ok_nnfp0 : forall g neg, no_unique g = true -> fv_ok g -> fv_ok (nnfp0 neg g).
+Proof.
+  intros g neg Hn Hg v Hv. unfold nnfp0 in Hv. apply nnfp_gen_fvars in Hv.
+  destruct Hv as [Hv|[vs [_ [Hvs _]]]]; [apply Hg; exact Hv|].
+  rewrite (no_unique_funiques g Hn) in Hvs. destruct Hvs.
+Qed.
+
+Lemma fv_ok_nnf : forall f, fv_ok f -> fv_ok (nnf f).
+Proof.
+  intros f H v Hv. unfold nnf, nnfp in Hv. apply nnfp_gen_fvars in Hv.
+  destruct Hv as [Hv|[vs [neg' [Hvs Hu]]]]; [apply H; exact Hv|].
+  assert (Hok : Forall okv vs).
+  { apply Forall_forall. intros w Hw. apply H. eapply funiques_fvars; eauto. }
+  revert v Hu. change (fv_ok (uq_go neg' vs)). unfold uq_go. destruct neg'.
+  - apply fv_ok_nnfp0; [apply no_unique_small|apply fv_ok_unique_small; exact Hok].
+  - apply fv_ok_nnfp0; [apply no_unique_rec|apply fv_ok_unique_rec; exact Hok].
 Qed.
 
 Close Scope nat_scope.
 
 (* ------------------------------------------------------------------ *)
+(* asCnf: the two directions for an arbitrary formula of the AST.       *)
+
+Lemma as_cnf_eq : forall f, cnf_rec (nnf f) (Vars [] []) = (c_clauses (as_cnf f), c_vars (as_cnf f)).
+Proof. intros f. unfold as_cnf. destruct (cnf_rec (nnf f) (Vars [] [])). reflexivity. Qed.
+
+Lemma as_cnf_struct : forall f, fv_ok f ->
+  wf_vars (c_vars (as_cnf f)) /\
+  in_range (c_clauses (as_cnf f)) (nvars (c_vars (as_cnf f))).
+Proof.
+  intros f H.
+  destruct (cnf_rec_struct (nnf f) _ _ _ (fv_ok_nnf _ H) wf_empty (as_cnf_eq f)) as [W [_ R]].
+  auto.
+Qed.
+
+(* a model of the clauses, read through the table, satisfies the formula
+   (exactly-one groups included, at any polarity) *)
+Theorem cnf_sound_form : forall f, fv_ok f -> forall m dflt,
+  sat_cnf m (c_clauses (as_cnf f)) = true -> eval (env_of (as_cnf f) m dflt) f = true.
+Proof.
+  intros f H m dflt S. apply nnf_sound. unfold env_of.
+  apply (cnf_rec_sound (nnf f) _ _ _ _ m dflt (fv_ok_nnf _ H) (nnf_cnf_ok f) wf_empty (as_cnf_eq f)).
+  - intros v i G. exact G.
+  - exact S.
+Qed.
+
+(* an assignment that satisfies the formula and gives the dummies of its
+   groups the value of their definition extends to a model of the clauses *)
+Theorem cnf_complete_form : forall f, fv_ok f -> forall env,
+  consistentb env (fdefs f) = true -> eval env f = true ->
+  exists m, List.length m = List.length (v_all (c_vars (as_cnf f))) /\
+            sat_cnf m (c_clauses (as_cnf f)) = true /\
+            consistent env (v_all (c_vars (as_cnf f))) m.
+Proof.
+  intros f H env C Hev.
+  destruct (cnf_rec_complete (nnf f) _ _ _ env [] (fv_ok_nnf _ H) (nnf_cnf_ok f) wf_empty
+              (as_cnf_eq f) eq_refl) as [e [L [C' S]]].
+  - intros v i G. discriminate.
+  - exists e. simpl in *. split; [|split; [|exact C']].
+    + unfold mlen, nvars, tbl_len in L. lia.
+    + apply S. rewrite nnf_eval by exact C. exact Hev.
+Qed.
+
+(* ------------------------------------------------------------------ *)
 (* Source level: the two directions.                                    *)
 
+Lemma desugar_eval : forall env s, eval env (desugar s) = seval (nm env) s.
+Proof.
+  intros env. induction s as [n| | |g IH|l IH|l IH|a b IHa IHb|a b IHa IHb|a b IHa IHb|names]
+    using sform_ind'; cbn [desugar seval].
+  - reflexivity.
+  - reflexivity.
+  - reflexivity.
+  - cbn [eval]. rewrite IH. reflexivity.
+  - cbn [eval]. rewrite forallb_map. apply forallb_ext_Forall. exact IH.
+  - cbn [eval]. rewrite existsb_map. apply existsb_ext_Forall. exact IH.
+  - rewrite eval_f_implies, IHa, IHb. reflexivity.
+  - rewrite eval_f_eq, IHa, IHb. reflexivity.
+  - rewrite eval_f_xor, IHa, IHb. reflexivity.
+  - unfold f_unique. cbn [eval]. rewrite map_map. reflexivity.
+Qed.
 
-Theorem cnf_sound : forall s, positive_unique s = true -> forall m dflt,
+Theorem fv_ok_desugar : forall s, fv_ok (desugar s).
+Proof.
+  induction s as [n| | |g IH|l IH|l IH|a b IHa IHb|a b IHa IHb|a b IHa IHb|names]
+    using sform_ind'; cbn [desugar].
+  - apply fv_ok_var. apply okv_pb.
+  - intros v [].
+  - intros v [].
+  - exact IH.
+  - apply fv_ok_and_of. intros x Hx. apply in_map_iff in Hx. destruct Hx as [y [<- Hy]].
+    rewrite Forall_forall in IH. auto.
+  - apply fv_ok_or_of. intros x Hx. apply in_map_iff in Hx. destruct Hx as [y [<- Hy]].
+    rewrite Forall_forall in IH. auto.
+  - apply fv_ok_f_implies; assumption.
+  - apply fv_ok_f_eq; assumption.
+  - apply fv_ok_f_xor; assumption.
+  - intros v Hv. unfold f_unique in Hv. simpl in Hv. apply in_map_iff in Hv.
+    destruct Hv as [n [<- _]]. apply okv_pb.
+Qed.
+
+Theorem cnf_sound : forall s m dflt,
   sat_cnf m (c_clauses (as_cnf (desugar s))) = true ->
   seval (names_of (as_cnf (desugar s)) m dflt) s = true.
 Proof.
-  intros s Hp m dflt S.
+  intros s m dflt S.
   pose proof (cnf_sound_form (desugar s) (fv_ok_desugar s) m (fun v => dflt (vname v)) S) as H.
-  exact (proj1 (desugar_polar _ s) Hp H).
+  rewrite desugar_eval in H. exact H.
 Qed.
 
 Theorem cnf_complete : forall s env, seval env s = true ->
@@ -2298,10 +2461,13 @@ Theorem cnf_complete : forall s env, seval env s = true ->
             forall n i, tbl_get (v_all (c_vars (as_cnf (desugar s)))) (pb_var n) = Some i ->
                         var_val m i = env n.
 Proof.
-  intros s env H. destruct (desugar_complete s env H) as [env' [Hn He]].
-  destruct (cnf_complete_form (desugar s) (fv_ok_desugar s) env' He) as [m [L [S C]]].
+  intros s env H.
+  destruct (fdefs_extend (desugar s) (fun v => env (vname v))) as [env' [Hn C]].
+  assert (He : eval env' (desugar s) = true).
+  { rewrite desugar_eval, <- H. apply seval_ext. intros n. unfold nm. apply Hn. reflexivity. }
+  destruct (cnf_complete_form (desugar s) (fv_ok_desugar s) env' C He) as [m [L [S Cm]]].
   exists m. split; [exact L|split; [exact S|]]. intros n i Gi.
-  rewrite (C _ _ Gi eq_refl). apply Hn.
+  rewrite (Cm _ _ Gi eq_refl). apply Hn. reflexivity.
 Qed.
 
 (* ------------------------------------------------------------------ *)
@@ -2366,7 +2532,7 @@ Proof.
     assert (Fs : fv_ok sub) by (apply (fv_ok_or_in _ _ Hfv); left; reflexivity).
     cbn [cnf_ok forallb] in Hok. apply andb_true_iff in Hok. destruct Hok as [Os Ol].
     change (cnf_ok (FOr l) = true) in Ol.
-    destruct sub as [v|v s|g|l2|l2| |]; try discriminate.
+    destruct sub as [v|v s|g|l2|l2| | |us]; try discriminate.
     + rewrite or_thread_lit in H. destruct (lit_value vs v s) as [x vs1] eqn:E1.
       destruct (or_thread cnf_rec l vs1) as [[res2 lits2] vs2] eqn:E2. injection H as <- <- <-.
       assert (Hv : tseitin_name v = false) by (apply Fs; simpl; auto).
@@ -2386,7 +2552,7 @@ Qed.
 
 Lemma cnf_rec_cover : forall g, cover_ok g.
 Proof.
-  induction g as [v|v s|f IH|l IH|l IH| |] using form_ind'.
+  induction g as [v|v s|f IH|l IH|l IH| | |us] using form_ind'.
   - intros vs cls vs' _ Hok. discriminate.
   - intros vs cls vs' Hfv _ W H w Hw. simpl in H.
     destruct (lit_value vs v s) as [x vs1] eqn:E1. injection H as <- <-.
@@ -2399,6 +2565,7 @@ Proof.
     apply (or_thread_cover l IH _ _ _ _ Hfv Hok W E w Hw).
   - intros vs cls vs' _ _ W H w Hw. simpl in H. injection H as <- <-. simpl. tauto.
   - intros vs cls vs' _ _ W H w Hw. simpl in H. injection H as <- <-. simpl. tauto.
+  - intros vs cls vs' _ Hok. discriminate.
 Qed.
 
 Theorem as_cnf_cover : forall f, fv_ok f -> forall v, tseitin_name v = false ->
@@ -2607,7 +2774,7 @@ Theorem dimacs_models : forall s,
   (forall env, seval env s = true ->
      exists m, Z.of_nat (List.length m) = d_nbvars d /\ sat_cnf m (d_clauses d) = true /\
                forall dflt n, In n (map fst (d_names d)) -> restrict d m dflt n = env n) /\
-  (positive_unique s = true -> forall m dflt,
+  (forall m dflt,
      sat_cnf m (d_clauses d) = true -> seval (restrict d m dflt) s = true).
 Proof.
   intros s d. pose proof (fv_ok_desugar s) as Hf. split.
@@ -2618,7 +2785,7 @@ Proof.
     fold d in Hidx. apply in_map_iff in Hn. destruct Hn as [[n' i] [E Hn]]. simpl in E. subst n'.
     destruct (Hidx n i Hn) as [_ Gi]. unfold names_of, env_of, env_tbl. rewrite Gi.
     apply (C n i Gi).
-  - intros Hp m dflt S. rewrite <- (cnf_sound s Hp m dflt S).
+  - intros m dflt S. rewrite <- (cnf_sound s m dflt S).
     apply seval_ext. intros n. apply restrict_names_of. exact Hf.
 Qed.
 
@@ -2675,7 +2842,7 @@ Proof. reflexivity. Qed.
 (* on an NNF the pass is the identity, with fuel = depth *)
 Lemma nnf_go_fix : forall g par k, nnf_sub par g = true -> depth g <= k -> nnf_go k g = Some g.
 Proof.
-  induction g as [v|v s|f IH|l IH|l IH| |] using form_ind'; intros par k H Hk; simpl in H;
+  induction g as [v|v s|f IH|l IH|l IH| | |us] using form_ind'; intros par k H Hk; simpl in H;
     try discriminate.
   - destruct k; [simpl in Hk; lia|reflexivity].
   - destruct k as [|k]; [simpl in Hk; lia|]. rewrite nnf_go_and.
@@ -2750,73 +2917,84 @@ Lemma maxd_map_le : forall (g : form -> form) l,
   Forall (fun x => depth (g x) <= depth x) l -> maxd depth (map g l) <= maxd depth l.
 Proof. induction 1 as [|x l H _ IH]; simpl; lia. Qed.
 
-Lemma nnfp_depth : forall f neg, depth (nnfp neg f) <= depth f.
+Lemma no_unique_in : forall l x, forallb no_unique l = true -> In x l -> no_unique x = true.
+Proof. intros l x H Hx. rewrite forallb_forall in H. auto. Qed.
+
+Lemma nnfp_depth : forall f neg, no_unique f = true -> depth (nnfp_gen uq_go neg f) <= depth f.
 Proof.
-  induction f as [v|v s|f IH|l IH|l IH| |] using form_ind'; intros neg; simpl.
+  induction f as [v|v s|f IH|l IH|l IH| | |us] using form_ind'; intros neg Hn; simpl in *.
   - lia.
   - lia.
-  - specialize (IH (negb neg)). lia.
-  - assert (H : forall b, maxd depth (map (nnfp b) l) <= maxd depth l).
-    { intros b. apply maxd_map_le. eapply Forall_impl; [|exact IH]. intros a Ha. apply Ha. }
-    destruct neg; [pose proof (or_fold_depth (map (nnfp true) l))
-                  |pose proof (and_fold_depth (map (nnfp false) l))];
+  - specialize (IH (negb neg) Hn). lia.
+  - assert (H : forall b, maxd depth (map (nnfp_gen uq_go b) l) <= maxd depth l).
+    { intros b. apply maxd_map_le. rewrite Forall_forall in *. intros a Ha.
+      apply IH; [exact Ha|]. apply (no_unique_in l); assumption. }
+    destruct neg; [pose proof (or_fold_depth (map (nnfp_gen uq_go true) l))
+                  |pose proof (and_fold_depth (map (nnfp_gen uq_go false) l))];
       [specialize (H true)|specialize (H false)]; lia.
-  - assert (H : forall b, maxd depth (map (nnfp b) l) <= maxd depth l).
-    { intros b. apply maxd_map_le. eapply Forall_impl; [|exact IH]. intros a Ha. apply Ha. }
-    destruct neg; [pose proof (and_fold_depth (map (nnfp true) l))
-                  |pose proof (or_fold_depth (map (nnfp false) l))];
+  - assert (H : forall b, maxd depth (map (nnfp_gen uq_go b) l) <= maxd depth l).
+    { intros b. apply maxd_map_le. rewrite Forall_forall in *. intros a Ha.
+      apply IH; [exact Ha|]. apply (no_unique_in l); assumption. }
+    destruct neg; [pose proof (and_fold_depth (map (nnfp_gen uq_go true) l))
+                  |pose proof (or_fold_depth (map (nnfp_gen uq_go false) l))];
       [specialize (H true)|specialize (H false)]; lia.
   - destruct neg; simpl; lia.
   - destruct neg; simpl; lia.
+  - discriminate.
 Qed.
 
-Lemma nnf_go_both : forall f k, 2 * depth f <= k ->
-  nnf_go (S k) f = Some (nnfp false f) /\ nnf_go (S (S k)) (FNot f) = Some (nnfp true f).
+Lemma nnf_go_both : forall f k, no_unique f = true -> 2 * depth f <= k ->
+  nnf_go (S k) f = Some (nnfp_gen uq_go false f) /\
+  nnf_go (S (S k)) (FNot f) = Some (nnfp_gen uq_go true f).
 Proof.
-  induction f as [v|v s|f IH|l IH|l IH| |] using form_ind'; intros k Hk.
+  induction f as [v|v s|f IH|l IH|l IH| | |us] using form_ind'; intros k Hn Hk.
   - split; reflexivity.
   - split; reflexivity.
-  - simpl in Hk. destruct k as [|[|k]]; [lia|lia|].
-    destruct (IH (S k) ltac:(lia)) as [H1 H2]. split.
+  - simpl in Hk, Hn. destruct k as [|[|k]]; [lia|lia|].
+    destruct (IH (S k) Hn ltac:(lia)) as [H1 H2]. split.
     + exact H2.
     + change (nnf_go (S (S (S (S k)))) (FNot (FNot f))) with (nnf_go (S (S (S k))) f).
-      destruct (IH (S (S k)) ltac:(lia)) as [H3 _]. exact H3.
-  - simpl in Hk. destruct k as [|[|k]]; [lia|lia|]. rewrite Forall_forall in IH.
+      destruct (IH (S (S k)) Hn ltac:(lia)) as [H3 _]. exact H3.
+  - simpl in Hk, Hn. destruct k as [|[|k]]; [lia|lia|]. rewrite Forall_forall in IH.
     assert (Hd : forall x, In x l -> 2 * depth x <= k).
     { intros x Hx. pose proof (maxd_in depth l x Hx). lia. }
+    assert (Hu : forall x, In x l -> no_unique x = true) by (intros x Hx; apply (no_unique_in l); assumption).
     split.
-    + rewrite nnf_go_and. rewrite (all_go_map _ (nnfp false)); [reflexivity|].
-      intros x Hx. destruct (IH x Hx (S k) ltac:(specialize (Hd x Hx); lia)) as [H1 _]. exact H1.
-    + rewrite nnf_go_not_and. rewrite (all_go_map _ (fun y => match y with FNot x => nnfp true x | _ => y end)).
+    + rewrite nnf_go_and. rewrite (all_go_map _ (nnfp_gen uq_go false)); [reflexivity|].
+      intros x Hx. destruct (IH x Hx (S k) (Hu x Hx) ltac:(specialize (Hd x Hx); lia)) as [H1 _]. exact H1.
+    + rewrite nnf_go_not_and. rewrite (all_go_map _ (fun y => match y with FNot x => nnfp_gen uq_go true x | _ => y end)).
       * rewrite map_map. cbn beta iota. rewrite nnf_go_or.
         rewrite (all_go_map _ (fun x => x)); [rewrite map_id; reflexivity|].
         intros y Hy. apply in_map_iff in Hy. destruct Hy as [x [<- Hx]].
         apply nnf_go_fix_top; [apply nnfp_shape|].
-        pose proof (nnfp_depth x true). specialize (Hd x Hx). lia.
+        pose proof (nnfp_depth x true (Hu x Hx)). specialize (Hd x Hx). lia.
       * intros y Hy. apply in_map_iff in Hy. destruct Hy as [x [<- Hx]].
-        destruct (IH x Hx (S k) ltac:(specialize (Hd x Hx); lia)) as [_ H2]. exact H2.
-  - simpl in Hk. destruct k as [|[|k]]; [lia|lia|]. rewrite Forall_forall in IH.
+        destruct (IH x Hx (S k) (Hu x Hx) ltac:(specialize (Hd x Hx); lia)) as [_ H2]. exact H2.
+  - simpl in Hk, Hn. destruct k as [|[|k]]; [lia|lia|]. rewrite Forall_forall in IH.
     assert (Hd : forall x, In x l -> 2 * depth x <= k).
     { intros x Hx. pose proof (maxd_in depth l x Hx). lia. }
+    assert (Hu : forall x, In x l -> no_unique x = true) by (intros x Hx; apply (no_unique_in l); assumption).
     split.
-    + rewrite nnf_go_or. rewrite (all_go_map _ (nnfp false)); [reflexivity|].
-      intros x Hx. destruct (IH x Hx (S k) ltac:(specialize (Hd x Hx); lia)) as [H1 _]. exact H1.
-    + rewrite nnf_go_not_or. rewrite (all_go_map _ (fun y => match y with FNot x => nnfp true x | _ => y end)).
+    + rewrite nnf_go_or. rewrite (all_go_map _ (nnfp_gen uq_go false)); [reflexivity|].
+      intros x Hx. destruct (IH x Hx (S k) (Hu x Hx) ltac:(specialize (Hd x Hx); lia)) as [H1 _]. exact H1.
+    + rewrite nnf_go_not_or. rewrite (all_go_map _ (fun y => match y with FNot x => nnfp_gen uq_go true x | _ => y end)).
       * rewrite map_map. cbn beta iota. rewrite nnf_go_and.
         rewrite (all_go_map _ (fun x => x)); [rewrite map_id; reflexivity|].
         intros y Hy. apply in_map_iff in Hy. destruct Hy as [x [<- Hx]].
         apply nnf_go_fix_top; [apply nnfp_shape|].
-        pose proof (nnfp_depth x true). specialize (Hd x Hx). lia.
+        pose proof (nnfp_depth x true (Hu x Hx)). specialize (Hd x Hx). lia.
       * intros y Hy. apply in_map_iff in Hy. destruct Hy as [x [<- Hx]].
-        destruct (IH x Hx (S k) ltac:(specialize (Hd x Hx); lia)) as [_ H2]. exact H2.
+        destruct (IH x Hx (S k) (Hu x Hx) ltac:(specialize (Hd x Hx); lia)) as [_ H2]. exact H2.
   - split; reflexivity.
   - split; reflexivity.
+  - discriminate.
 Qed.
 
 (* the literal mirror (with the second pass of not.nnf) computes [nnf] *)
-Theorem nnf_go_nnf : forall f k, 2 * depth f < k -> nnf_go k f = Some (nnf f).
+Theorem nnf_go_nnf : forall f k, no_unique f = true -> 2 * depth f < k ->
+  nnf_go k f = Some (nnf f).
 Proof.
-  intros f k H. destruct k as [|k]; [lia|]. apply (nnf_go_both f k). lia.
+  intros f k Hn H. destruct k as [|k]; [lia|]. apply (nnf_go_both f k Hn). lia.
 Qed.
 
 Close Scope nat_scope.
@@ -2853,7 +3031,7 @@ Theorem eval_go_eval : forall m f,
   (forall v, In v (fvars f) -> assoc_str m (vname v) <> None) ->
   eval_go m f = Some (eval (env_map m) f).
 Proof.
-  intros m. induction f as [v|v s|f IH|l IH|l IH| |] using form_ind'; intros H; cbn [eval_go eval].
+  intros m. induction f as [v|v s|f IH|l IH|l IH| | |us] using form_ind'; intros H; cbn [eval_go eval].
   - unfold env_map. destruct (assoc_str m (vname v)) eqn:E; [reflexivity|].
     exfalso. apply (H v); [left; reflexivity|exact E].
   - unfold env_map. destruct (assoc_str m (vname v)) eqn:E; [reflexivity|].
@@ -2867,6 +3045,17 @@ Proof.
     intros v Hv. apply H. simpl. apply in_flat_map. exists s. auto.
   - reflexivity.
   - reflexivity.
+  - assert (E : fold_right (fun v acc => match assoc_str m (vname v), acc with
+                                          | Some b, Some l => Some (b :: l)
+                                          | _, _ => None end) (Some []) us
+               = Some (map (env_map m) us)).
+    { induction us as [|u us IHu]; [reflexivity|]. simpl.
+      rewrite IHu by (intros v Hv; apply H; right; exact Hv).
+      destruct (assoc_str m (vname u)) eqn:Eu.
+      - assert (Eb : env_map m u = b) by (unfold env_map; rewrite Eu; reflexivity).
+        rewrite Eb. reflexivity.
+      - exfalso. apply (H u); [left; reflexivity|exact Eu]. }
+    rewrite E. reflexivity.
 Qed.
 
 (* ------------------------------------------------------------------ *)
@@ -2942,7 +3131,7 @@ Proof.
       - exists c, l0. split; [apply in_or_app; auto|auto].
       - exists (y :: lits0), l0. split; [apply in_or_app; right; left; reflexivity|].
         split; [right; exact H2|exact H3]. }
-    destruct sub as [v|v s|g|l2|l2| |]; try (exact (IH HFl _ _ _ _ Fl W H i Hi)).
+    destruct sub as [v|v s|g|l2|l2| | |us]; try (exact (IH HFl _ _ _ _ Fl W H i Hi)).
     + rewrite or_thread_lit in H. destruct (lit_value vs v s) as [x vs1] eqn:E1.
       destruct (or_thread cnf_rec l vs1) as [[res2 lits2] vs2] eqn:E2. injection H as <- <- <-.
       assert (Hv : tseitin_name v = false) by (apply Fs; simpl; auto).
@@ -2969,7 +3158,7 @@ Qed.
 
 Lemma cnf_rec_used : forall g, used_ok g.
 Proof.
-  induction g as [v|v s|f IH|l IH|l IH| |] using form_ind'.
+  induction g as [v|v s|f IH|l IH|l IH| | |us] using form_ind'.
   - intros vs cls vs' _ W H i Hi. simpl in H. injection H as <- <-. lia.
   - intros vs cls vs' Hfv W H i Hi. simpl in H.
     destruct (lit_value vs v s) as [x vs1] eqn:E1. injection H as <- <-.
@@ -2981,6 +3170,7 @@ Proof.
   - intros vs cls vs' Hfv W H i Hi. cbn [cnf_rec] in H.
     destruct (or_thread cnf_rec l vs) as [[res lits] vs1] eqn:E. injection H as <- <-.
     apply (or_thread_used l IH _ _ _ _ Hfv W E i Hi).
+  - intros vs cls vs' _ W H i Hi. simpl in H. injection H as <- <-. lia.
   - intros vs cls vs' _ W H i Hi. simpl in H. injection H as <- <-. lia.
   - intros vs cls vs' _ W H i Hi. simpl in H. injection H as <- <-. lia.
 Qed.
@@ -3050,17 +3240,17 @@ Qed.
 Theorem solve_correct : forall solve, solver_ok solve -> forall s,
   match bf_solve solve (desugar s) with
   | None => forall env, seval env s = false
-  | Some mp => positive_unique s = true -> forall dflt, seval (complete mp dflt) s = true
+  | Some mp => forall dflt, seval (complete mp dflt) s = true
   end.
 Proof.
   intros solve Hok s. unfold bf_solve.
   set (c := as_cnf (desugar s)).
   destruct (solve (List.length (v_all (c_vars c))) (cnf_problem (c_clauses c))) as [m|] eqn:E.
-  - intros Hp dflt. destruct (solver_ok_some _ Hok _ _ _ E) as [L S].
+  - intros dflt. destruct (solver_ok_some _ Hok _ _ _ E) as [L S].
     rewrite sat_cnf_problem in S.
     set (mp := map (fun e : var * Z => (vname (fst e), var_val m (snd e)))
                    (filter (fun e : var * Z => negb (vdummy (fst e))) (v_pb (c_vars c)))).
-    pose proof (cnf_sound s Hp m (complete mp dflt) S) as H. fold c in H.
+    pose proof (cnf_sound s m (complete mp dflt) S) as H. fold c in H.
     rewrite <- H. apply seval_ext. intros n. symmetry.
     apply (names_of_complete (desugar s) m dflt (fv_ok_desugar s)).
   - intros env. destruct (seval env s) eqn:H; [|reflexivity]. exfalso.
@@ -3084,7 +3274,7 @@ Proof.
 Qed.
 
 (* ------------------------------------------------------------------ *)
-(* Final statements and findings.                                       *)
+(* Final statements.                                                    *)
 
 (* ---- statements with the boolean side condition of the model ---- *)
 
@@ -3092,7 +3282,8 @@ Theorem cnf_sound_formb : forall f, fv_okb f = true -> forall m dflt,
   sat_cnf m (c_clauses (as_cnf f)) = true -> eval (env_of (as_cnf f) m dflt) f = true.
 Proof. intros f H. apply cnf_sound_form. apply fv_okb_ok. exact H. Qed.
 
-Theorem cnf_complete_formb : forall f, fv_okb f = true -> forall env, eval env f = true ->
+Theorem cnf_complete_formb : forall f, fv_okb f = true -> forall env,
+  consistentb env (fdefs f) = true -> eval env f = true ->
   exists m, List.length m = List.length (v_all (c_vars (as_cnf f))) /\
             sat_cnf m (c_clauses (as_cnf f)) = true /\
             forall v i, tbl_get (v_all (c_vars (as_cnf f))) v = Some i ->
@@ -3105,7 +3296,7 @@ Proof. intros s. apply fv_okb_ok. apply fv_ok_desugar. Qed.
 Theorem solve_ref_correct : forall s,
   match solve_ref (desugar s) with
   | None => forall env, seval env s = false
-  | Some mp => positive_unique s = true -> forall dflt, seval (complete mp dflt) s = true
+  | Some mp => forall dflt, seval (complete mp dflt) s = true
   end.
 Proof. intros s. apply (solve_correct ref_solve ref_solver_ok). Qed.
 
@@ -3133,31 +3324,14 @@ Theorem as_cnf_usedb : forall f, fv_okb f = true -> forall i,
   exists c l, In c (c_clauses (as_cnf f)) /\ In l c /\ Z.abs l = i.
 Proof. intros f H. apply as_cnf_used. apply fv_okb_ok. exact H. Qed.
 
-(* ---- findings ---- *)
+(* ---- the witnesses of the former findings (all repaired in bf.go) ---- *)
 Local Open Scope string_scope.
 
-(* D15 (open): a negated exactly-one group of more than 4 names.  The formula
-   says "a and nothing else, and not exactly one of a..e": unsatisfiable, but
-   Solve answers with an assignment. *)
+(* D15: "a and nothing else, and not exactly one of a..e" *)
 Definition neg_unique_witness : sform :=
   SAnd [SVar "a"; SNot (SVar "b"); SNot (SVar "c"); SNot (SVar "d"); SNot (SVar "e");
         SNot (SUnique ["a"; "b"; "c"; "d"; "e"])].
 
-Theorem neg_unique_refuted : exists s mp,
-  positive_unique s = false /\
-  solve_ref (desugar s) = Some mp /\
-  seval (complete mp (fun _ => false)) s = false /\
-  (forall env, seval env s = false).
-Proof.
-  exists neg_unique_witness.
-  eexists. split; [vm_compute; reflexivity|]. split; [vm_compute; reflexivity|].
-  split; [vm_compute; reflexivity|].
-  intros env. cbn [seval neg_unique_witness forallb map].
-  destruct (env "a"), (env "b"), (env "c"), (env "d"), (env "e"); reflexivity.
-Qed.
-
-(* Former findings, fixed in bf.go (quoted names and "d" mark in the names of
-   the dummies; dummies left out of the result of Solve): the former witnesses. *)
 Definition clash_witness : sform :=
   SAnd [SUnique ["a-b"; "c"; "d"; "e"; "f"]; SUnique ["a"; "b-c"; "d"; "e"; "f"];
         SVar "a-b"; SVar "b-c"].
